@@ -30,7 +30,7 @@ func genHist2(t vtype, r *vh.Rand, n int) hist {
 	pickHandle := func() int { return nh - 1 - r.Intn(min(nh, 4)) }
 	for len(h.Ops) < n {
 		k := r.Intn(keys)
-		switch x := r.Intn(22); {
+		switch x := r.Intn(24); {
 		case x < 4:
 			h.Ops = append(h.Ops, op{K: "ins", Key: k, Seed: r.U64()%1000 + 1})
 			nh++
@@ -74,6 +74,19 @@ func genHist2(t vtype, r *vh.Rand, n int) hist {
 			blk = cp(base)
 			txn = cp(base)
 			allGets()
+		case x >= 22:
+			if !inflatable[t.name] {
+				get(k)
+				break
+			}
+			// an insert the trie rejects, then look at the same transaction and at the next one
+			h.Ops = append(h.Ops, op{K: "insbig", Key: k, Seed: r.U64()%1000 + 1})
+			allGets()
+			if r.Bool() {
+				h.Ops = append(h.Ops, op{K: "ctxn"})
+				blk = cp(txn)
+				allGets()
+			}
 		default:
 			// malformed: operations on objects the caller does not hold, delete of an absent key
 			h.Ops = append(h.Ops, op{K: "mut", I: nh + 3}, op{K: "insh", Key: k, I: nh + 5})
